@@ -24,7 +24,7 @@ def gen_lines(seed, i, n_ops):
 
 
 def check(rep, tier, seed):
-    n_hist, n_ops = (14, 60) if tier == "quick" else (400, 150)
+    n_hist, n_ops = (14, 60) if tier == "quick" else (1500, 150)
     groups = []
     cases = []
     for i in range(n_hist):
